@@ -833,7 +833,7 @@ class Group:
                     all((t - t.round()).abs().max() == 0 for t in (X, Y)):
                 got = got.round()
                 al = str(kwargs["alpha"]) if "alpha" in kwargs else "n"
-                vline = f"val {fkey} {tokens[0]} {tokens[1]} {al} {fmt(X)} {fmt(Y)}"
+                vline = f"val {fkey} {arg_token(args1[0])} {arg_token(args1[1])} {al} {fmt(X)} {fmt(Y)}"
                 self.lines.append((vline, fmt(got), cell + "/value-model", self.payload(fkey=fkey, pos=pos, label=label), "val"))
         return ok
 
